@@ -325,6 +325,7 @@ structure SchedSt where
   armed  : List Nat := []
   active : List Nat := []
   acc    : List (Nat × Nat) := []
+  late   : List String := []    -- requests of the callbacks of an `ltick`, received during the next operation
 
 def rqTok : Call → String
   | .setTimer (some k) v d => s!"set:{k}:{v}:{d}"
@@ -342,6 +343,7 @@ inductive SOp where
   | release (k : Nat)
   | boom (k : Nat)      -- the next callback of k panics: recovered by RunSafe / GoSafe / the task runner, nothing else changes
   | calls (cs : List Call) (res : List String) (sortRq : Bool) (cache' : CacheL)
+  | ltick
 
 def parseFetch (s : String) : Option (Fetch × String) :=
   if s = "ok" then some (.ok, "fresh") else if s = "err" ∨ s = "tnil" then some (.err, "err")
@@ -353,6 +355,7 @@ def parseSched (isCache : Bool) (c : CacheL) : List String → Option SOp
   | ["release", k] => k.toNat?.map .release
   | ["boom", k, kind] => if kind = "err" ∨ kind = "str" then k.toNat?.map .boom else none
   | ["tick"] => some (.calls [.tick] [] true c)
+  | ["ltick"] => some .ltick
   | op =>
     if isCache then
       match op with
@@ -399,7 +402,7 @@ def schedCalls {T : Type} (ts : TStep T) (isCache : Bool) (a : ApiG T) (st : Sch
     | _ => none
   let okTok (x : Inner) : Option String :=
     if x.2.2 = .ok then (match x.2.1 with | .tick => none | c => some (rqTok c)) else none
-  let rq := i.2.2.filterMap okTok ++ q.inner.filterMap okTok
+  let rq := st.late ++ i.2.2.filterMap okTok ++ q.inner.filterMap okTok
   let rq := if sortRq then rq.foldr insertStr [] else rq
   let armedFired := st.armed.filter fun k => q.fired.any (·.1 = k)
   let active := st.active ++ armedFired
@@ -411,7 +414,7 @@ def schedCalls {T : Type} (ts : TStep T) (isCache : Bool) (a : ApiG T) (st : Sch
   let fuel := if q.left.isEmpty then [] else ["FUEL"]
   let toks := res ++ errs ++ (if rq.isEmpty then [] else ["rq=" ++ ",".intercalate rq]) ++ out ++ has ++ fuel
   (q.api, { cache := q.cb, armed := st.armed.filter (fun k => !q.fired.any (·.1 = k)), active := active,
-            acc := if active.isEmpty then [] else acc },
+            acc := if active.isEmpty then [] else acc, late := [] },
    (if toks.isEmpty then "-" else joinSp toks), q.fired)
 
 def schedStep {T : Type} (ts : TStep T) (isCache : Bool) (a : ApiG T) (st : SchedSt) :
@@ -423,6 +426,14 @@ def schedStep {T : Type} (ts : TStep T) (isCache : Bool) (a : ApiG T) (st : Sche
   | .release k =>
     schedCalls ts isCache a { st with armed := st.armed.filter (· ≠ k), active := st.active.filter (· ≠ k) } [] [] true st.cache
   | .calls cs res sortRq cache' => schedCalls ts isCache a st cs res sortRq cache'
+  | .ltick =>
+    -- the tick and its callbacks as in `tick`; the callbacks' requests are printed by the next operation, first
+    -- (they were pending before it started), in the order the callbacks issued them
+    let r := schedCalls ts isCache a st [.tick] [] true st.cache
+    let q := ApiG.settle ts (if isCache then cacheLCb else fun c _ _ => (c, [])) 1000000 (ApiG.issue ts 0 a [.tick]).1 st.cache
+      (ApiG.issue ts 0 a [.tick]).2.1
+    let late := q.inner.filterMap fun x => if x.2.2 = .ok then some (rqTok x.2.1) else none
+    (r.1, { r.2.1 with late := st.late ++ late, acc := [] }, joinSp ("lazy" :: (if r.2.2.2.isEmpty then [] else [canon r.2.2.2])), r.2.2.2)
 
 def schedCover (isCache : Bool) (st : SchedSt) (op : List String) (sop : SOp) (fired : List (Nat × Nat))
     (after : SchedSt) (lastEvicted : Option Nat) : List String :=
@@ -432,6 +443,7 @@ def schedCover (isCache : Bool) (st : SchedSt) (op : List String) (sop : SOp) (f
   (match sop with
    | .hold _ => [if st.active.isEmpty then "sched-hold-armed" else "sched-hold-while-held"]
    | .boom _ => ["sched-callback-panics-" ++ op.getD 2 ""]
+   | .ltick => ["sched-lazy-tick-replay-only"]
    | .release k =>
      (if st.active.contains k then ["sched-release-held"] else if st.armed.contains k then ["sched-release-armed-not-reached"] else ["sched-release-idle"]) ++
      (if st.active.contains k ∧ after.active.isEmpty ∧ st.acc.length ≥ 2 then ["sched-release-prints-2+"] else [])
